@@ -144,6 +144,12 @@ func vLRUStep(opKind int, maxCap int) {
 	ref := &vRefLRU{cap: c, items: append([]vKV(nil), items...)}
 	k, v := vndInt("k"), 999
 	vAssume(k != vPumpKey)
+	if opKind == 0 && vndBool("sameValue") {
+		// storing the value the key already holds is still a use of the key
+		if i := ref.find(k); i >= 0 {
+			v = ref.items[i].v
+		}
+	}
 	switch opKind {
 	case 0:
 		l.Store(k, v)
@@ -187,7 +193,7 @@ func vLRUHistory(nops int, maxCap int) {
 		vAssume(k != vPumpKey)
 		switch op {
 		case 0:
-			v := 100 + i // distinct concrete values: opaque to the cache, they identify the store in Dump
+			v := 100 + vndChoice("v"+names[i], 2) // concrete values (opaque to the cache); re-storing an equal value is covered
 			l.Store(k, v)
 			ref.store(k, v)
 		case 1:
